@@ -228,6 +228,21 @@ def nc_eval(m, n, k, lo, hi, t: Fraction, a):
     return sx / den, upper / den, lower / den
 
 
+_SOFT = [0]
+
+
+def _true_root(f, target, increasing):
+    """Bisection on a log scale for the monotone defining equation (only used to word a failure message)."""
+    lo_, hi_ = 1e-300, 1e300
+    for _ in range(75):
+        mid = math.exp((math.log(lo_) + math.log(hi_)) / 2)
+        if (f(mid) < target) == increasing:
+            lo_ = mid
+        else:
+            hi_ = mid
+    return math.sqrt(lo_) * math.sqrt(hi_)
+
+
 def tol_interval(r):
     """Interval of odds ratios the root finder's tolerance allows around a returned value r (0 <= r <= inf).
     -> (lo, hi, lo_rel, hi_rel)."""
@@ -292,10 +307,22 @@ def check_fisher(a, b, c, d, got, cls):
             fails.append((f'fisher-{name}', f'{name} solves its defining equation (within the root-finder tolerance)',
                           f'{inp} {name} = {r!r}: f({tl!r}) = {fl_!r}, f({th!r}) = {fh!r}, target {target!r}'))
             return
-        if 0 < r < math.inf:
+        # strict clause of the property: the value agrees with its mathematical definition to rel 2e-3
+        if r == 0:
+            okr = False
+            f1 = f2 = None
+        else:
             f1, f2 = ev(rl)[which], ev(rh)[which]
             okr = (f1 - slack <= target <= f2 + slack) if increasing else (f2 - slack <= target <= f1 + slack)
-            cls.append('root_rel_2e-3' if okr else 'root_only_abs_tol')
+        cls.append('root_rel_2e-3' if okr else 'root_only_abs_tol')
+        if not okr:
+            _SOFT[0] += 1
+            true = _true_root(lambda t: ev(t)[which], target, increasing) if (_SOFT[0] <= 25 or hi - lo <= 100) else None
+            fails.append(('fisher-uniroot-abs-tolerance',
+                          'odds ratio / CI limits solve their defining equation to rel 2e-3',
+                          f'{inp} {name} = {r!r}' + (f', mathematically {true!r}' if true is not None else '')
+                          + f' (equation at {name}*(1-/+2e-3): {f1!r}, {f2!r}; target {target!r}); the value is only within the '
+                          f'root finder\'s absolute tolerance 1.22e-4 on t = min(OR, 1/OR) (R zeroin), so limits far from 1 are inaccurate'))
 
     # conditional MLE: E[X; or] = a
     if a == lo:
@@ -589,7 +616,7 @@ def run_shard(spec, seed, tier):
 
         @st.composite
         def tables(draw):
-            mode = draw(st.integers(0, 11))
+            mode = draw(st.integers(0, 23)) % 12 if draw(st.integers(0, 3)) else draw(st.integers(0, 10))
             if mode <= 2:
                 cells = [draw(big) for _ in range(4)]
             elif mode <= 5:
@@ -611,12 +638,12 @@ def run_shard(spec, seed, tier):
             else:                # negative somewhere
                 cells = [draw(mid) for _ in range(4)]
                 cells[draw(st.integers(0, 3))] = draw(st.integers(-5, -1))
-            m = draw(st.one_of(st.integers(0, 10), st.integers(0, 10), st.integers(0, 10), st.sampled_from([-1, -7])))
+            m = draw(st.integers(0, 10)) if draw(st.integers(0, 15)) else draw(st.sampled_from([-1, -7]))
             return dict(kind='table', cells=cells, m=m)
 
         @st.composite
         def hwes(draw):
-            mode = draw(st.integers(0, 7))
+            mode = draw(st.integers(0, 7)) if draw(st.integers(0, 3)) == 0 else draw(st.integers(0, 6))
             if mode <= 2:
                 c = [draw(st.integers(0, 5000)) for _ in range(3)]
             elif mode <= 4:
